@@ -375,7 +375,7 @@ func c07Nested(rep *vk.Report, idx int) {
 	r := vk.Rng(rep.Seed, "C07n", idx)
 	kind := vk.Pick(r, "T(Tshort)", "T(Retry(Tshort))", "T(fn-returns-wrapped-ErrExceeded)", "T(Fallback(Tshort))", "T-cancelled-from-outside", "Hedge(Retry(T))")
 	if kind == "T-cancelled-from-outside" {
-		c07Outside(rep, idx, r)
+		c07Outside(rep, idx, r, "C07")
 		return
 	}
 	if kind == "Hedge(Retry(T))" {
@@ -423,7 +423,7 @@ func c07Nested(rep *vk.Report, idx int) {
 // c07Outside: a Timeout whose execution is cancelled from outside (context) well before the limit, with a function that
 // returns the context's error as I/O code does: the Timeout did not expire, so its listener must stay silent for good
 // (a timer left armed would call it once the limit passes).
-func c07Outside(rep *vk.Report, idx int, r *rand.Rand) {
+func c07Outside(rep *vk.Report, idx int, r *rand.Rand, prop string) {
 	L := time.Duration(vk.Pick(r, 10, 20, 30)) * time.Millisecond
 	var calls atomic.Int64
 	T := timeout.Builder[int](L).OnTimeoutExceeded(func(failsafe.ExecutionDoneEvent[int]) { calls.Add(1) }).Build()
@@ -447,7 +447,11 @@ func c07Outside(rep *vk.Report, idx int, r *rand.Rand) {
 	time.Sleep(L + 30*time.Millisecond)
 	rep.Eval()
 	if !errors.Is(err, context.Canceled) || calls.Load() != 0 {
-		rep.Violate(idx, "C07/listener-called-without-timeout", fmt.Sprintf("Timeout (limit %v) cancelled from outside after %v: result %v, OnTimeoutExceeded called %d times %v after the execution finished (want 0)", L, L/10, err, calls.Load(), L+30*time.Millisecond), map[string]any{"limit_ns": int64(L)})
+		sig := prop + "/listener-called-without-timeout"
+		if prop == "C19" {
+			sig = "C19/timeout-timer-left-armed"
+		}
+		rep.Violate(idx, sig, fmt.Sprintf("Timeout (limit %v) cancelled from outside after %v: result %v, OnTimeoutExceeded called %d times %v after the execution finished (want 0)", L, L/10, err, calls.Load(), L+30*time.Millisecond), map[string]any{"limit_ns": int64(L)})
 		return
 	}
 	rep.Count("outside_cancellation_scenarios", 1)
